@@ -10,6 +10,7 @@ import Lessm.Model.ColorFn
 import Lessm.Model.Nest
 import Lean.Data.Json
 import Lessm.Spec.VarsSpec
+import Lessm.Spec.MediaSpec
 
 open Lessm
 
@@ -169,6 +170,43 @@ def run (payload : String) : String :=
                        ("varok", Json.bool (VarOK sheet))]).compress
 end VarsIO
 
+namespace MediaIO
+open Lean Lessm.Media
+
+partial def item (j : Json) : Except String Item := do
+  match j.getObjVal? "d" with
+  | .ok d =>
+      let a ← d.getArr?
+      pure (.decl ⟨← (a[0]!).getStr?, ← (a[1]!).getStr?⟩)
+  | .error _ =>
+    match j.getObjValAs? (Array String) "m" with
+    | .ok q =>
+        let b ← (← (← j.getObjVal? "b").getArr?).toList.mapM item
+        pure (.media q.toList b)
+    | .error _ =>
+        let r ← j.getObjValAs? (Array String) "r"
+        let b ← (← (← j.getObjVal? "b").getArr?).toList.mapM item
+        pure (.rule r.toList b)
+
+def tripleJson (t : STriple) : Json :=
+  Json.arr #[match t.media with | none => Json.null | some q => Json.str (String.intercalate " " q),
+             Json.arr (t.sels.toArray.map (fun s => Json.str (Lessm.Sel.fmtOne "" s))),
+             Json.arr (t.decls.toArray.map (fun d => Json.arr #[Json.str d.prop, Json.str d.value]))]
+
+def run (payload : String) : String :=
+  match Json.parse payload with
+  | .error e => "bad-json " ++ e
+  | .ok j =>
+    match j.getArr? with
+    | .error e => "bad-json " ++ e
+    | .ok arr =>
+      match arr.toList.mapM item with
+      | .error e => "bad-item " ++ e
+      | .ok sheet =>
+          (Json.mkObj [("model", Json.arr ((observe sheet).map toSTriple |>.toArray.map tripleJson)),
+                       ("spec", Json.arr ((specSheet sheet).toArray.map tripleJson))]).compress
+end MediaIO
+
 def handle (op : String) (payload : String) : String :=
   let args := (payload.splitOn " ").filter (· ≠ "")
   match op, args with
@@ -196,6 +234,7 @@ def handle (op : String) (payload : String) : String :=
     match op, payload.splitOn "\x1f" with
     | "c02.flat", [j] => nestFlat j
     | "c03.run", [j] => VarsIO.run j
+    | "c07.run", [j] => MediaIO.run j
     | "c17.unknown", name :: rest => Builtins.callUnknown name rest
     | "c06.guard", [g] =>
         match parseGuard g with
